@@ -2,6 +2,7 @@ import Driver.Util
 import Driver.DeployId
 import Driver.Engine
 import Driver.Policy
+import Driver.Handlers
 
 def main (args : List String) : IO UInt32 := do
   let stdin ← IO.getStdin
@@ -9,4 +10,5 @@ def main (args : List String) : IO UInt32 := do
   | ["deployid"] => Drv.loop stdin Drv.DeployId.step (); return 0
   | ["engine"] => Drv.loop stdin Drv.Engine.step {}; return 0
   | ["policy"] => Drv.loop stdin Drv.Policy.step (); return 0
+  | ["handlers"] => Drv.loop stdin Drv.Handlers.step (); return 0
   | _ => IO.eprintln "usage: wfdriver <model>"; return 2
